@@ -139,6 +139,10 @@ class MarkerExpression(SingleMarker):
         from dep_logic.specifiers import parse_version_specifier
 
         if self.name not in self._VERSION_LIKE_MARKER_NAME:
+            if self.reversed and self.op in ("in", "not in"):
+                # `"lit" in name`: the literal must occur in the value, not the value in the literal
+                op = "contains" if self.op == "in" else "not contains"
+                return GenericSpecifier(op, self.value)
             return GenericSpecifier(self.op, self.value)
         if self.op in ("in", "not in"):
             versions: list[str] = []
